@@ -37,9 +37,10 @@ Print Assumptions C09_reduced_price.
 Theorem C09_threshold_is_2_5_percent : WIN_MIN_ADJ_FACTOR_X100 = 250.
 Proof. reflexivity. Qed.
 
-Theorem C09_moc_lay_scaling : forall tb mt b rsel a min_adj o r ra,
+Theorem C09_moc_lay_scaling : forall tb mt b rsel a min_adj o r,
   so_sel o <> rsel -> so_type o = TMoc -> so_side o = Lay ->
-  find_runner b (so_sel o) = Some r -> r_adj r = Some ra ->
+  find_runner b (so_sel o) = Some r -> a <> 0 ->
+  let ra := match r_adj r with Some x => x | None => 0 end in
   exists o', removal_order tb mt b rsel (Some a) min_adj o = Some o' /\
     (match mt with
      | MWin => so_liab_n o' = so_liab_n o * (10000 - ra - a) /\ so_liab_d o' = so_liab_d o * (10000 - ra)
@@ -47,22 +48,23 @@ Theorem C09_moc_lay_scaling : forall tb mt b rsel a min_adj o r ra,
      | _ => o' = o
      end).
 Proof. exact removal_scales_moc_lay. Qed.
+Theorem C09_no_factor_no_reduction : forall tb mt b rsel adj min_adj o,
+  so_sel o <> rsel -> so_type o = TMoc -> so_side o = Lay -> adj = None \/ adj = Some 0 -> removal_order tb mt b rsel adj min_adj o = Some o.
+Proof. exact removal_without_factor_keeps_moc_lay. Qed.
 Print Assumptions C09_moc_lay_scaling.
 
-(* 3. "exactly once per market" is REFUTED on the faithful model (finding F-C09-1): the de-duplication list is
-      instance-wide and keyed (selection, factor) without the market: after runner 1 (factor 10) was removed in
-      market 0, its removal in market 1 is never applied - the order there keeps its fill *)
+(* 3. "exactly once per market": the de-duplication is keyed (market, selection, factor) since the repair of F-C09-1 (on the pinned tree
+      it was instance-wide without the market: after runner 1 (factor 10) had been removed in market 0, its removal in market 1 was never
+      applied).  A removal recorded for another market does not suppress this market's; the same book again processes nothing new. *)
 Definition c09_book := xbook 10 MOpen 2 [xrunner 1 RRemoved (Some 1000) [] [] []; xrunner 2 RActive None [] [] []].
 Definition c09_state : sim :=
-  {| s_markets := []; s_queue := []; s_bet := 0; s_removals := [(1, Some 1000)] (* recorded while processing market 0 *);
+  {| s_markets := []; s_queue := []; s_bet := 0; s_removals := [(0, (1, Some 1000))] (* recorded while processing market 0 *);
      s_next_name := 1000; s_aborted := false; s_tx := 0; s_tx_failed := 0 |}.
 Definition c09_market1 : market :=
   {| mk_id := 1; mk_static := std_static; mk_book := None; mk_closed := false; mk_seen := true; mk_analytics := [];
      mk_orders := [xorder 7 1 Back 20000 500 SExecutable 500 20000 0 0 0 [{| f_pt := 1; f_price := 20000; f_size := 500 |}]]; mk_active := true |}.
-Theorem C09_once_per_market_refuted :
-  map so_matched (mk_orders (snd (middleware tb_up std_cfg c09_state c09_market1 c09_book))) = [500] /\
-  map so_voided (mk_orders (snd (middleware tb_up std_cfg c09_state c09_market1 c09_book))) = [0] /\
-  (* whereas with an empty list the same book voids the order *)
-  map so_voided (mk_orders (snd (middleware tb_up std_cfg (sim0 []) c09_market1 c09_book))) = [500].
+Example C09_once_per_market_example :
+  let '(s1, m1) := middleware tb_up std_cfg c09_state c09_market1 c09_book in
+  map so_voided (mk_orders m1) = [500] /\ s_removals s1 = [(0, (1, Some 1000)); (1, (1, Some 1000))] /\
+  (let '(s2, m2) := middleware tb_up std_cfg s1 m1 c09_book in s_removals s2 = s_removals s1 /\ map so_voided (mk_orders m2) = [500]).
 Proof. vm_compute. repeat split; reflexivity. Qed.
-Print Assumptions C09_once_per_market_refuted.
